@@ -1778,3 +1778,6 @@ TWINS = [
      ("txt_dset[line_offset + ii] = lbytes",
       "txt_dset[ii + line_offset] = lbytes")),
 ]
+
+# mutants that re-introduce the repaired defects (apply to the fixed tree)
+MUTANTS = list(MUTANTS) + list(MUTANTS_AFTER_FIX)
